@@ -196,6 +196,12 @@ func payloadOwner(calls []Call) map[int]map[int]bool {
 func handlerOwner(calls []Call) map[int]map[int]bool {
 	own := map[int]map[int]bool{}
 	for i, c := range calls {
+		for _, h := range c.HostHs {
+			if own[h] == nil {
+				own[h] = map[int]bool{}
+			}
+			own[h][i] = true
+		}
 		for _, b := range c.Script {
 			for _, h := range b.Hs {
 				if own[h] == nil {
@@ -241,6 +247,9 @@ func judge(c *Case, obs []CallObs, res *lib.Result) {
 		for _, nd := range g.Nodes {
 			if !nd.Runs {
 				tags["has-unselected-node"] = true
+				if nd.Kind == "sub" {
+					tags["has-unselected-subgraph"] = true
+				}
 			}
 			if nd.Kind == "comp" {
 				tags["comp:"+tyNames[nd.Ty]] = true
@@ -302,6 +311,15 @@ func judge(c *Case, obs []CallObs, res *lib.Result) {
 			tags["call:invoke"] = true
 		}
 		tags["class:"+o.Class] = true
+		if cl.Host > 0 {
+			tags[fmt.Sprintf("call:hosted-%d", cl.Host)] = true
+			if len(cl.HostHs) > 0 {
+				tags["call:hosted-with-handlers"] = true
+			}
+			if cl.HostBait {
+				tags["call:hosted-with-foreign-options"] = true
+			}
+		}
 		// what the property demands
 		badAny := false
 		whyAny := ""
@@ -320,6 +338,11 @@ func judge(c *Case, obs []CallObs, res *lib.Result) {
 		for _, op := range opts {
 			if len(op.hs) > 0 {
 				hasCb = true
+			}
+			for _, it := range op.items {
+				if it[0] == tyNil {
+					tags["opt:nil-value"] = true
+				}
 			}
 			for _, q := range op.paths {
 				designated = true
@@ -347,6 +370,8 @@ func judge(c *Case, obs []CallObs, res *lib.Result) {
 				globals = append(globals, op.hs...)
 			}
 		}
+		// a hosted call: the handlers already in its context are in front of every callback manager
+		globals = append(append([]int{}, cl.HostHs...), globals...)
 		expFired = append(expFired, PL{Path: []int{}, Vals: sortedCopy(globals)})
 		walkTree(c.Forest, 0, nil, 0, sel, func(p []int, nd Node) {
 			if nd.Kind != "sub" {
@@ -362,7 +387,7 @@ func judge(c *Case, obs []CallObs, res *lib.Result) {
 				expDeliv = append(expDeliv, PL{Path: p, Vals: vals})
 			}
 			if nd.Kind != "pass" {
-				hs := []int{}
+				hs := append([]int{}, cl.HostHs...)
 				for _, op := range opts {
 					m := firedMult(op, p)
 					if (m > 0) != handlerAddressed(op, p) {
